@@ -178,7 +178,9 @@ class CodedInputStream {
  public:
   template <typename T, std::enable_if_t<std::is_integral_v<T> && sizeof(T) == 1, bool> = true>
   void ReadByte(T& v) {
-    if (buffer_ptr_ == buffer_end_ptr_) {
+    // FillBuffer() may deliver nothing (the end of the stream falls on a buffer boundary);
+    // the next call then throws.
+    while (buffer_ptr_ == buffer_end_ptr_) {
       FillBuffer();
     }
     v = *buffer_ptr_++;
@@ -273,12 +275,8 @@ class CodedInputStream {
 
   template <typename T, std::enable_if_t<std::is_integral_v<T>, bool> = true>
   void ReadFixedIntegerSlow(T& value) {
-    if (buffer_ptr_ == buffer_end_ptr_) {
-      FillBuffer();
-      ReadFixedIntegerFastFromArray(value, buffer_ptr_);
-      return;
-    }
-
+    // The refilled buffer may hold fewer bytes than the value needs (truncated stream),
+    // so always go through ReadBytes, which checks.
     uint8_t bytes[sizeof(T)];
     ReadBytes(bytes, sizeof(T));
     uint8_t* bytes_ptr = bytes;
@@ -301,16 +299,11 @@ class CodedInputStream {
 
   template <typename T, std::enable_if_t<std::is_integral_v<T>, bool> = true>
   void ReadVarIntegerSlow(T& value) {
-    if (buffer_ptr_ == buffer_end_ptr_) {
-      FillBuffer();
-      ReadVarIntegerFastFromArray(value, buffer_ptr_);
-      return;
-    }
-
+    // Byte by byte: the refilled buffer may end inside the value (truncated stream).
     value = 0;
     int shift = 0;
     while (true) {
-      if (buffer_ptr_ == buffer_end_ptr_) {
+      while (buffer_ptr_ == buffer_end_ptr_) {
         FillBuffer();
       }
       uint8_t byte = *buffer_ptr_++;
